@@ -170,6 +170,17 @@ def run(ctx):
                 f2 = p.fns.get(x)
                 if f2 and any((cc.declared or "").endswith("CliOptions::apply_to") for cc in f2.calls()):
                     ok = True
+        if not ok:
+            # explicit form: every Ok(..) return on a path where `options` is Some has called apply_to before
+            try:
+                paths = explore(lc, is_effect=lambda c: (c.declared or "").endswith("CliOptions::apply_to"), max_paths=20000)
+                oks = [pa for pa in paths if pa.end == "ret" and pa.ret is not None and vkey(pa.ret).startswith("Ok(")]
+                need = [pa for pa in oks if any(k == "discr(arg2)" and variant_name(v) == "Some" for k, v in pa.decisions)
+                        or not any(k == "discr(arg2)" for k, v in pa.decisions)]
+                some = [pa for pa in oks if any(k == "discr(arg2)" and variant_name(v) == "Some" for k, v in pa.decisions)]
+                ok = bool(some) and all(any(e.kind == "call" for e in pa.effects) for pa in some)
+            except TooManyPaths:
+                ok = False
         r.instance(D, "load_config: apply_to in the final map", "ok" if ok else "violation", "%s:%d" % (lc.file, lc.line))
         if not ok:
             r.violation(D, "load_config does not apply the command-line options last",
@@ -179,6 +190,9 @@ def run(ctx):
     E = r.rule("R14-e", "width clamp closure of set_width_heuristics: not set ↦ heuristic value; set ∧ value > max_width ↦ max_width; "
                         "otherwise the user's value")
     cl = [f for f in p.fns.values() if f.kind == "Closure" and f.root and f.root.endswith("Config::set_width_heuristics")]
+    if not cl:
+        # the clamp may be a named local fn of set_width_heuristics instead of a closure
+        cl = [f for f in p.fns.values() if f.kind == "Fn" and "Config::set_width_heuristics::" in f.id and f.locals[0] == "usize"]
     if len(cl) != 1:
         r.undecidable(E, "clamp closure of set_width_heuristics not found uniquely (%d)" % len(cl))
     else:
